@@ -237,6 +237,31 @@ func loopback() {
 		}
 		n := clampC(cf.CInt)
 
+		// error path first: queries that cannot be packed go through the real plugin
+		// (nothing can reach a server for them; the buffer-pool sanitizer watches the
+		// releases), then the ordinary calls follow on the same plugin
+		for k, ucl := range unpackableClasses() {
+			if (k+ci)%4 != 0 { // 3-4 classes per configuration, all of them over the configurations
+				continue
+			}
+			id := newID()
+			q := epQuery(ucl, id, uint16(rng.Intn(65536)))
+			qCtx := query_context.NewContext(q)
+			if _, err := qCtx.Q().Pack(); err == nil {
+				rep.Inconclusive("loopback: class %s packs", qClasses[ucl].name)
+				continue
+			}
+			caselog.Log(map[string]any{"phase": "loopback", "cfg": cf, "unpackable_query_class": qClasses[ucl].name})
+			ctx, cancel := context.WithTimeout(context.Background(), 20*time.Second)
+			err := exec.Exec(ctx, qCtx)
+			cancel()
+			rep.Eval(1)
+			rep.Count("loopback_unpackable_queries_executed", 1)
+			if err != nil {
+				rep.Count("loopback_unpackable_queries_ended_in_an_error", 1)
+			}
+		}
+
 		var lcs []*loopCall
 		for k := 0; k < calls; k++ {
 			lc := &loopCall{name: fmt.Sprintf("call%d.cfg%d.c14.test.", k, ci), rcodes: make([]int, cf.L)}
